@@ -49,8 +49,22 @@ for _i, _v in enumerate(SBOX):
     INV_SBOX[_v] = _i
 
 
+import functools
+
+_MULT = {m: [gmul(x, m) for x in range(256)] for m in (1, 2, 3, 9, 11, 13, 14)}
+
+
+@functools.lru_cache(maxsize=64)
+def _expand_key_cached(key: bytes):
+    return tuple(tuple(w) for w in _expand_key(key))
+
+
 def expand_key(key: bytes) -> list[list[int]]:
     """Return the key schedule as a list of 4-byte words."""
+    return [list(w) for w in _expand_key_cached(bytes(key))]
+
+
+def _expand_key(key: bytes) -> list[list[int]]:
     nk = len(key) // 4
     if len(key) not in (16, 24, 32):
         raise ValueError("key length")
@@ -102,7 +116,7 @@ def _mix(s, m):
         for r in range(4):
             v = 0
             for k in range(4):
-                v ^= gmul(m[r][k], s[k][c])
+                v ^= _MULT[m[r][k]][s[k][c]]
             out[r][c] = v
     return out
 
@@ -115,7 +129,60 @@ def inv_mix_columns(s):
     return _mix(s, _IMIX)
 
 
+# Flat-state implementation of the same definitions (for speed): index permutations are *derived* from shift_rows /
+# inv_shift_rows above, the column mixing uses the computed multiplication tables.
+_SR = list(_from_state(shift_rows(_to_state(bytes(range(16))))))        # output byte i comes from input byte _SR[i]
+_ISR = list(_from_state(inv_shift_rows(_to_state(bytes(range(16))))))
+_M2, _M3, _M9, _M11, _M13, _M14 = (_MULT[m] for m in (2, 3, 9, 11, 13, 14))
+
+
+@functools.lru_cache(maxsize=64)
+def _round_keys(key: bytes):
+    w = _expand_key_cached(bytes(key))
+    return tuple(tuple(b for word in w[4 * r:4 * r + 4] for b in word) for r in range(len(w) // 4))
+
+
 def encrypt_block(key: bytes, block: bytes) -> bytes:
+    rks = _round_keys(bytes(key))
+    nr = len(rks) - 1
+    s = [b ^ k for b, k in zip(block, rks[0])]
+    sbox, sr, m2, m3 = SBOX, _SR, _M2, _M3
+    for rnd in range(1, nr + 1):
+        t = [sbox[s[sr[i]]] for i in range(16)]
+        rk = rks[rnd]
+        if rnd != nr:
+            s = []
+            for c in (0, 4, 8, 12):
+                a0, a1, a2, a3 = t[c], t[c + 1], t[c + 2], t[c + 3]
+                s += [m2[a0] ^ m3[a1] ^ a2 ^ a3 ^ rk[c], a0 ^ m2[a1] ^ m3[a2] ^ a3 ^ rk[c + 1],
+                      a0 ^ a1 ^ m2[a2] ^ m3[a3] ^ rk[c + 2], m3[a0] ^ a1 ^ a2 ^ m2[a3] ^ rk[c + 3]]
+        else:
+            s = [x ^ k for x, k in zip(t, rk)]
+    return bytes(s)
+
+
+def decrypt_block(key: bytes, block: bytes) -> bytes:
+    rks = _round_keys(bytes(key))
+    nr = len(rks) - 1
+    s = [b ^ k for b, k in zip(block, rks[nr])]
+    isbox, isr = INV_SBOX, _ISR
+    for rnd in range(nr - 1, -1, -1):
+        t = [isbox[s[isr[i]]] for i in range(16)]
+        rk = rks[rnd]
+        t = [x ^ k for x, k in zip(t, rk)]
+        if rnd != 0:
+            s = []
+            for c in (0, 4, 8, 12):
+                a0, a1, a2, a3 = t[c], t[c + 1], t[c + 2], t[c + 3]
+                s += [_M14[a0] ^ _M11[a1] ^ _M13[a2] ^ _M9[a3], _M9[a0] ^ _M14[a1] ^ _M11[a2] ^ _M13[a3],
+                      _M13[a0] ^ _M9[a1] ^ _M14[a2] ^ _M11[a3], _M11[a0] ^ _M13[a1] ^ _M9[a2] ^ _M14[a3]]
+        else:
+            s = t
+    return bytes(s)
+
+
+def encrypt_block_slow(key: bytes, block: bytes) -> bytes:
+    """Textbook matrix form (kept as a cross-check of the flat form in self_test)."""
     w = expand_key(key)
     nr = len(w) // 4 - 1
     s = _to_state(block)
@@ -129,7 +196,7 @@ def encrypt_block(key: bytes, block: bytes) -> bytes:
     return _from_state(s)
 
 
-def decrypt_block(key: bytes, block: bytes) -> bytes:
+def decrypt_block_slow(key: bytes, block: bytes) -> bytes:
     w = expand_key(key)
     nr = len(w) // 4 - 1
     s = _to_state(block)
@@ -232,8 +299,14 @@ def self_test() -> None:
     h = bytes.fromhex
     assert SBOX[0] == 0x63 and SBOX[0x53] == 0xED and INV_SBOX[0x63] == 0
     for k, p, c in KAT_BLOCK:
-        assert encrypt_block(h(k), h(p)) == h(c)
-        assert decrypt_block(h(k), h(c)) == h(p)
+        assert encrypt_block(h(k), h(p)) == h(c) == encrypt_block_slow(h(k), h(p))
+        assert decrypt_block(h(k), h(c)) == h(p) == decrypt_block_slow(h(k), h(c))
+    import random as _r
+    rr = _r.Random(1)
+    for _ in range(60):
+        k = bytes(rr.randrange(256) for _ in range(rr.choice((16, 24, 32))))
+        b = bytes(rr.randrange(256) for _ in range(16))
+        assert encrypt_block(k, b) == encrypt_block_slow(k, b) and decrypt_block(k, b) == decrypt_block_slow(k, b)
     for k, p, c in KAT_ECB:
         assert ecb_encrypt(h(k), h(p)) == h(c) and ecb_decrypt(h(k), h(c)) == h(p)
     for k, iv, p, c in KAT_CBC:
